@@ -4,6 +4,9 @@ import itertools
 from .C03 import _rank_profiles, _pick
 
 
+AOPTS = {'scalar_mode': 'A', 'logic': None, 'setup': {'factor_mode': 'exact'}, 'case_timeout_s': 120}
+
+
 def cases(tier, seed):
     rng = random.Random(seed + 7)
     th = tier == 'thorough'
@@ -23,13 +26,13 @@ def cases(tier, seed):
     cs.append({'scen': 'tt_norm', 's': {'N': [2, 2], 'R': [1, 2, 1], 'dtype': 'complex128', 'tracked': True, 'squared': True}})
     cs.append({'scen': 'tt_norm', 's': {'N': [2], 'R': [1, 1], 'dtype': 'complex128', 'tracked': True, 'squared': False}})
     # ---- norm, untracked (QR sweep; exact factorization models, see tv/factor.py)
-    for N, R in [([3], [1, 1]), ([1], [1, 1]), ([2, 3], [1, 2, 1]), ([2, 3], [1, 1, 1]), ([2, 1, 3], [1, 2, 2, 1]), ([2, 2, 2], [1, 2, 1, 1]),
-                 ([3, 2], [1, 2, 1])] + ([([2, 2, 2, 2], [1, 2, 2, 2, 1]), ([2, 3, 2], [1, 2, 2, 1])] if th else []):
+    for N, R in [([3], [1, 1]), ([1], [1, 1]), ([2, 3], [1, 2, 1]), ([2, 3], [1, 1, 1]), ([2, 2, 2], [1, 1, 2, 1]), ([2, 2, 2], [1, 2, 1, 1]),
+                 ([3, 2], [1, 2, 1]), ([1, 3], [1, 1, 1]), ([2, 1, 2], [1, 1, 1, 1])] + ([([2, 2, 2, 2], [1, 1, 2, 1, 1]), ([2, 3, 2], [1, 2, 1, 1])] if th else []):
         for sq in (True, False):
-            cs.append({'scen': 'tt_norm', 's': {'N': N, 'R': R, 'dtype': 'float64', 'squared': sq, 'variant': 'untracked'}})
+            cs.append({'scen': 'tt_norm', 's': {'N': N, 'R': R, 'dtype': 'float64', 'squared': sq, 'variant': 'untracked'}, 'opts': AOPTS})
     for N, M, R in [([2], [3], [1, 1]), ([2, 1], [1, 2], [1, 2, 1]), ([1, 2], [2, 1], [1, 2, 1])]:
         for sq in (True, False):
-            cs.append({'scen': 'tt_norm', 's': {'N': N, 'M': M, 'R': R, 'dtype': 'float64', 'squared': sq, 'variant': 'untracked'}})
+            cs.append({'scen': 'tt_norm', 's': {'N': N, 'M': M, 'R': R, 'dtype': 'float64', 'squared': sq, 'variant': 'untracked'}, 'opts': AOPTS})
     # ---- dot: full
     for N, R in structs:
         d = len(N)
